@@ -8,6 +8,16 @@ NOT_APPLICABLE = {
     'C03': 'C++ exception capture/transport/rethrow: CBMC\'s usable front end here is C, extraction drops try/catch, so no contract can mention the behaviour (DESIGN.md §6)',
 }
 CLAIMS = {
+    'C07': {
+        'technique': 'CBMC function contracts + loop contracts (dfcc) on input_buffer sliced from src/tbb/parallel_pipeline.cpp; modular proof of try_put_token against grow\'s proved contract; ghost-token (Skolem) representation invariant',
+        'text': 'For every buffer size up to 2^16 and every token: grow keeps each parked item in the slot of its own token and leaves no stale valid slot; try_put_token assigns a token once, lets the caller run the item iff it carries the lowest outstanding token, otherwise parks it unmodified inside the window without touching any other parked item; try_to_spawn_task_for_next_token advances low_token by one, releases exactly the item parked under the new low_token (ordered stages: in token order), once.',
+        'note': 'Trusted: the array_mutex serialises the three methods (spin_mutex is proved under C08), allocation succeeds, spawn_stage_task stub (C01). Not decided: live-token accounting in stage_task, end_of_input races, unordered buffers\' item identity, return of the call.',
+    },
+    'C17': {
+        'technique': 'CBMC loop-free full-domain harnesses on functions sliced from src/tbbmalloc/frontend.cpp (size classes, slab bump pointer, interior-pointer recovery, reallocAligned with contract stubs); exhaustive translation validation against the real allocator',
+        'text': 'For every request size the bin\'s object is big enough, naturally aligned, fits a slab and maps back to its bin; bump allocation places objects inside the slab payload at multiples of objectSize from the slab end, never the same address twice; an interior pointer is mapped to the object that contains it; scalable_realloc/aligned_realloc answer in place only when the block really is big enough and aligned, otherwise copy min(old,new) bytes inside both blocks and free the old block exactly once, and leave it alone when the new allocation fails.',
+        'note': 'Trusted: bsr semantics, callee stubs in reallocAligned, sizeof(Block)==128 (checked natively). Not decided: cross-thread free/public free list/orphans, backend coalescing (disjointness between slabs and large blocks), getFromLLOCache placement, allocateAligned as a whole.',
+    },
     'C05': {
         'technique': 'CBMC code contracts on functions sliced from blocked_range*.h / partitioner.h / parallel_for.h: loop-free full-domain harnesses (incl. IEEE float), dfcc loop contracts with ghost accounting, complete unwinding of the 8-slot range pool',
         'text': 'Every split of a blocked_range (all sizes/grains, size_t/int/unsigned char; even and proportional) yields two adjacent non-empty halves; partitioner divisors are conserved and never underflow; the 8-slot range pool stays an ordered tiling under split_to_fill/pop_back/pop_front; the execute loops only ever split a divisible range, never run an empty one and what is offered plus what is run tiles the original range, for every steal/demand decision (nondeterministic stubs); parallel_for(first,last,step) trip count and k-th index for the complete domain of 8-bit Index types. F3 (signed span overflow) and F4 (2-D/3-D split above 2^52) are reported as KNOWN-FINDING.',
